@@ -97,6 +97,16 @@ def exec_grammar(engine_extras: bool = False, opt_extras: bool = False, limit_ex
         A("intersect", 1, "SELECT a FROM x INTERSECT SELECT c FROM y"),
         A("except", 1, "SELECT a FROM x EXCEPT SELECT c FROM y"),
         A("union_filter", 1, "SELECT a FROM x WHERE {sc} UNION SELECT c FROM y"),
+        # both operands read the SAME table (under its own name / under the same alias / under two aliases), with different filters
+        A("same.union_all", 1, "SELECT a FROM x UNION ALL SELECT a FROM x WHERE {sc}"),
+        A("same.except", 1, "SELECT a FROM x EXCEPT SELECT a FROM x WHERE {sc}"),
+        A("same.intersect", 1, "SELECT a FROM x WHERE {sc} INTERSECT SELECT a FROM x"),
+        A("same.union_alias", 1, "SELECT t.a FROM x AS t WHERE t.b = 1 UNION ALL SELECT t.b FROM x AS t WHERE t.a = 1"),
+        A("same.union_two_aliases", 1, "SELECT t1.a FROM x AS t1 WHERE t1.b = 1 UNION ALL SELECT t2.b FROM x AS t2 WHERE t2.a = 1"),
+        A("same.union_three", 1, "SELECT a FROM x WHERE a = 1 UNION ALL SELECT a FROM x WHERE a = 2 UNION ALL SELECT b FROM x"),
+        A("same.derived_union", 1, "SELECT s.a FROM (SELECT a FROM x WHERE b = 1 UNION ALL SELECT a FROM x WHERE b = 2) AS s"),
+        A("same.join_self", 1, "SELECT t1.a, t2.b FROM x AS t1 JOIN x AS t2 ON t1.a = t2.b WHERE t1.b = 1"),
+        A("same.in_self", 1, "SELECT a FROM x WHERE a IN (SELECT b FROM x WHERE a = 1)"),
         A("union_order", 1, "SELECT a, b FROM x UNION ALL SELECT b, c FROM y ORDER BY 1, 2"),
         A("in_subquery", 1, "SELECT a, b FROM x WHERE b IN (SELECT b FROM y)"),
         A("not_in_subquery", 1, "SELECT a, b FROM x WHERE b NOT IN (SELECT b FROM y)"),
